@@ -14,6 +14,7 @@ CLAUSE_PROPS = {
     'eqref.answer': ('C01', 'C04'),
     'eqref.tree': ('C01',),
     'rollback.': ('C02',),
+    'tmpdir.': ('C02',),
     'foreign.': ('C03',),
     'clean.': ('C12',),
     'cache.': ('C16',),
